@@ -388,7 +388,7 @@ Definition wf_item (it : item) : bool :=
   end.
 
 (* a plain value without trailing comment and a block scalar read on into the indentation of the
-   next line: a comment line that follows them directly starts at column 0 *)
+   next line *)
 Definition eats_indent (it : item) : bool :=
   match it with
   | IKV _ _ (VFlow _ (FPlain _ _) _ None) _ => true
@@ -396,11 +396,19 @@ Definition eats_indent (it : item) : bool :=
   | _ => false
   end.
 
+(* an indented comment line directly after an item: after a block scalar it must be indented less
+   than the scalar (otherwise it is a line of the scalar) *)
+Definition icomment_ok (it : item) (n : nat) : bool :=
+  match it with
+  | IKV _ _ (VBlock _ _ _ _ indent _ _) _ => Nat.ltb n indent
+  | _ => true
+  end.
+
 Fixpoint wf_adj (items : list item) : bool :=
   match items with
   | [] => true
   | it :: r =>
-      negb (eats_indent it && match r with IComment (S _) _ _ :: _ => true | _ => false end) && wf_adj r
+      match r with IComment (S n) _ _ :: _ => icomment_ok it (S n) | _ => true end && wf_adj r
   end.
 
 (* without the final line break the last line is a key/value item with the value (if any) on it *)
